@@ -350,6 +350,15 @@ impl G {
 }
 
 impl Fams {
+    /// Brute force up to 13 arguments, the backtracking reference above (None when it gives up).
+    pub fn auto(g: &G) -> Option<Fams> {
+        if g.n > 13 {
+            Fams::new_medium(g)
+        } else {
+            Some(Fams::new(g))
+        }
+    }
+
     /// The families of a graph of up to 30 arguments without enumerating its subsets; `cf` and `adm` are
     /// left empty (they are only used for classification and for C18's bounds on small graphs). None when
     /// the graph has more complete extensions or maximal conflict-free sets than `MEDIUM_FAMILY_LIMIT`.
